@@ -13,6 +13,30 @@ COMPONENTS = {
 }
 
 PROPS = {
+    "C01": {
+        "level": "exploration",
+        "rule": "run = seeded report multiset from a grammar (imp+conv pairs, conv+conv with wrapping value sums, imp+imp with wrapping breakdown sums, keys with 3+ reports, singles, only-impressions, "
+                "only-conversions, one hot bucket driven past saturation of the 8-bit output instantiation) x shards {1,2,3,5} x assignment plan (round-robin, random, all-to-one, one shard empty) x "
+                "{semi-honest, malicious} x {no padding, relaxed padding} x output width {32-bit production, 8-bit} x gateway knobs x schedule policy; non-trivial iff >=1 report and >=1 multi-choice decision; "
+                "distinct by (shape, schedule digest)",
+        "scenarios": [
+            {"name": "c01_hybrid", "quick": 72, "thorough": 3000, "offset": 1, "chunk": 3, "run_timeout": 900, "max_workers": 12, "det_seeds": 3, "min_runs": 25, "min_s": 400},
+        ],
+        "expected_probes": ["matched_pairs", "malicious_runs", "padding_runs"],
+        "components_real": ["protocol::hybrid::{hybrid_protocol, oprf, agg, breakdown_reveal}, ipa_prf::{shuffle, oprf_padding, prf_eval, aggregation, boolean_ops}, basics::shard_fin, both validators, PRSS, Gateway, in-memory MPC+shard transports (TestWorld<WithShards<S>>)"],
+        "assumptions": ["the compact step-identifier implementation (cargo feature compact-gate) does not compile together with the repo's shuttle feature, so the 'either implementation of step identifiers' axis is not explored under the controlled scheduler (DESIGN.md section 4, C01)"],
+    },
+    "C02": {
+        "level": "fault_enumeration",
+        "rule": "run = a dense (every shard busy at every stage) malicious-mode hybrid query as in C01, executed honestly (must equal the reference), then replayed with the same seed while one of the three helpers "
+                "rewrites one chunk it sends; the site is drawn from the honest run's channel inventory (about 1000-3000 channels) stratified by step name, over MPC and shard-to-shard traffic of that helper; "
+                "non-trivial iff the rewritten chunk was delivered; distinct by (shape, site, schedule digest)",
+        "scenarios": [
+            {"name": "c02_tamper", "quick": 60, "thorough": 3000, "offset": 1, "chunk": 2, "run_timeout": 900, "max_workers": 12, "crash_ok": True, "det_seeds": 2, "min_runs": 20, "min_s": 400},
+        ],
+        "expected_probes": ["tamper_aborted_query"],
+        "components_real": ["the whole malicious hybrid query as in C01"],
+    },
     "C03": {
         "level": "fault_enumeration",
         "rule": "run = seeded Boolean circuit (and/or/add/sat_add/sub/gt/geq) over 1..40 records x vector width {1,16,32,256} x bit width 1..120 in DZKP-malicious mode, batched "
@@ -163,6 +187,18 @@ NOT_APPLICABLE = {
 }
 
 MANIFEST_TEXT = {
+    "C01": {
+        "text": "Seeded exploration of the real hybrid_protocol (all stages) on 3 helpers x {1,2,3,5} shards under a controlled scheduler, semi-honest and malicious, with and without dummy padding, with reports generated from a grammar that forces the statement's corner classes and arbitrary shard assignment. Oracle: an independent implementation of the statement's plaintext rule (pairs only, wrap at value/key width, saturate at the output width), compared with the reconstruction of the three helpers' leader-shard output; all helpers must return Ok and hold consistent sharings. Three genuine defects (hang / ZeroRecords error when a shard has nothing to process at some stage) are listed in known_findings.json and reported as KNOWN-FINDING lines. Sampling, not proof.",
+        "design_ref": "DESIGN.md section 4, C01 and section 7",
+        "note": "the step-identifier axis (compact gate) is not explored: it does not build with the shuttle seam; dummy padding uses the repo's 'relaxed' parameters; production type instantiation (BA8, BA3, BA32) plus an 8-bit output instantiation for saturation",
+        "technique": "deterministic simulation: seeded schedule + input/assignment search over the real sharded query, independent plaintext reference model",
+    },
+    "C02": {
+        "text": "Fault enumeration over the whole malicious hybrid query: the honest run supplies the channel inventory and the reference; the same seed is replayed with one helper (each of the three) rewriting one chunk it sends on a site stratified by protocol step (padding, shuffle, conversion, PRF, reshard, group-by-sum, reveal, aggregation, finalize - MPC and shard traffic). Violation iff both honest helpers complete the query on every shard and their output shares do not determine the reference histogram. Sites are sampled: about 60 per quick run, thousands in the thorough tier.",
+        "design_ref": "DESIGN.md section 4, C02",
+        "note": "residual acceptance probabilities: 2^-32 shuffle tags, ~2^-50 DZKP, 2^-252 MAC; single-message rewriting (plus the two-site consistent attack in C04) rather than an adaptive adversary; an honest helper aborting (allocation failure on a forged length) counts as 'no output'",
+        "technique": "deterministic simulation: honest run + same-seed replay with single-site Byzantine rewriting across the whole query, inventory stratified by step",
+    },
     "C06": {
         "text": "Seeded exploration: (1) PRSS endpoints produced by the real key exchange over the simulated network (and by make_participants) are queried with seeded (step, index, width) tuples incl. multi-block values up to the 2^11 offset cap and sequential generators: right_i == left_{i+1} on every block, and all blocks of all (helper pair, step, index, offset) are pairwise distinct; (2) gen_and_distribute on 3 x {2,3,5} shards under seeded schedules: every shard of a helper derives the leader's values and they match the neighbouring helpers' shards; (3) the 'never drawn twice' clause is a monitor: the debug-build reuse detector is armed while the fault-free MAC, DZKP-circuit and sharded-shuffle workloads run over their size/batch grids, and its panic is routed here. Sampling, not proof.",
         "design_ref": "DESIGN.md section 4, C06",
